@@ -266,6 +266,19 @@ pub fn generate(g: &mut Gen, thorough: bool) {
             g.push(super::op_line("plain", &[], &[], t, "both", "F", &data), "op-geodesy-text-through-plain", true);
         }
     }
+    // a value of the step itself wins over the pipeline's, also when it is the default of the parameter
+    for (proj, geodesy) in [
+        ("proj=pipeline k=0.9996 step proj=tmerc lon_0=9 k=1 step proj=addone", "tmerc lon_0=9 k_0=1 | addone"),
+        ("+proj=pipeline +k_0=0.5 +step +proj=tmerc +lon_0=9 +k=1.0 +step +proj=tmerc +lon_0=9 +inv", "tmerc lon_0=9 k_0=1 | tmerc lon_0=9 k_0=0.5 inv"),
+        ("proj=pipeline x_0=500000 step proj=tmerc lon_0=9 x_0=0 step proj=addone", "tmerc lon_0=9 x_0=0 | addone"),
+        ("proj=pipeline ellps=intl step proj=tmerc lon_0=9 ellps=GRS80 step proj=cart", "tmerc lon_0=9 ellps=GRS80 | cart ellps=intl"),
+        ("proj=pipeline k=2 step proj=merc k=1", "merc k_0=1 |"),
+        ("proj=tmerc lon_0=9 k=1", "tmerc lon_0=9 k_0=1"),
+    ] {
+        g.push(format!("S_C17\t{}\t{}\t{}", crate::wire::escape(proj), crate::wire::escape(geodesy), data), "oracle-step-value-wins", true);
+        g.push(format!("PROJ\t{}", crate::wire::escape(proj)), "step-value-wins", true);
+        g.push(super::op_line("plain", &[], &[], proj, "both", "F", &data), "op-step-value-wins", true);
+    }
     // refusals, pass-through, idempotence
     for t in [
         "proj=pipeline step proj=utm zone=32 step init=epsg:4326",
